@@ -4,6 +4,7 @@
 # Modifications:
 # Copyright David Halter and Contributors
 # Modifications are dual-licensed: MIT and PSF.
+from ast import literal_eval
 from typing import Optional, Iterator, Tuple, List
 
 from parso.python.tokenize import tokenize
@@ -137,8 +138,13 @@ class GrammarParser:
         elif self.type in (PythonTokenTypes.NAME, PythonTokenTypes.STRING):
             a = NFAState(self._current_rule_name)
             z = NFAState(self._current_rule_name)
+            value = self.value
+            if self.type == PythonTokenTypes.STRING:
+                # The same terminal can be spelled in different ways ('x',
+                # "x" or '\x78'), which must not lead to different arcs.
+                value = repr(literal_eval(value))
             # Make it clear that the state transition requires that value.
-            a.add_arc(z, self.value)
+            a.add_arc(z, value)
             self._gettoken()
             return a, z
         else:
